@@ -21,6 +21,9 @@ func (o *IntOperation) get(left Operand, right Operand) (int, int, error) {
 }
 
 func (o *IntOperation) EQ(left Operand, right Operand) (bool, error) {
+	if _, ok := left.(float64); ok {
+		return (&FloatOperation{}).EQ(left, right)
+	}
 	l, r, err := o.get(left, right)
 	if err != nil {
 		return false, err
@@ -29,6 +32,9 @@ func (o *IntOperation) EQ(left Operand, right Operand) (bool, error) {
 }
 
 func (o *IntOperation) NE(left Operand, right Operand) (bool, error) {
+	if _, ok := left.(float64); ok {
+		return (&FloatOperation{}).NE(left, right)
+	}
 	l, r, err := o.get(left, right)
 	if err != nil {
 		return false, err
@@ -37,6 +43,9 @@ func (o *IntOperation) NE(left Operand, right Operand) (bool, error) {
 }
 
 func (o *IntOperation) GT(left Operand, right Operand) (bool, error) {
+	if _, ok := left.(float64); ok {
+		return (&FloatOperation{}).GT(left, right)
+	}
 	l, r, err := o.get(left, right)
 	if err != nil {
 		return false, err
@@ -45,6 +54,9 @@ func (o *IntOperation) GT(left Operand, right Operand) (bool, error) {
 }
 
 func (o *IntOperation) LT(left Operand, right Operand) (bool, error) {
+	if _, ok := left.(float64); ok {
+		return (&FloatOperation{}).LT(left, right)
+	}
 	l, r, err := o.get(left, right)
 	if err != nil {
 		return false, err
@@ -53,6 +65,9 @@ func (o *IntOperation) LT(left Operand, right Operand) (bool, error) {
 }
 
 func (o *IntOperation) GE(left Operand, right Operand) (bool, error) {
+	if _, ok := left.(float64); ok {
+		return (&FloatOperation{}).GE(left, right)
+	}
 	l, r, err := o.get(left, right)
 	if err != nil {
 		return false, err
@@ -61,6 +76,9 @@ func (o *IntOperation) GE(left Operand, right Operand) (bool, error) {
 }
 
 func (o *IntOperation) LE(left Operand, right Operand) (bool, error) {
+	if _, ok := left.(float64); ok {
+		return (&FloatOperation{}).LE(left, right)
+	}
 	l, r, err := o.get(left, right)
 	if err != nil {
 		return false, err
